@@ -237,7 +237,11 @@ impl SystemState {
                         .map(|p| p.id)
                         .max()
                         .unwrap_or_else(|| panic!("No partition found"));
-                    for i in 0..command.partitions_count {
+                    // The requested count is clamped to the existing partitions, just like when the command was handled.
+                    let partitions_count = command
+                        .partitions_count
+                        .min(topic.partitions.len() as u32);
+                    for i in 0..partitions_count {
                         topic.partitions.remove(&(last_partition_id - i));
                     }
                 }
